@@ -429,6 +429,7 @@ pub fn gen_recorder(rng: &mut Rng, cfg: &GenCfg) -> RecorderSpec {
         blank: *rng.pick(&[0u8, 0, 0, 6, 20]),
         idle: false,
         empty_garbage: false,
+        cut_last_frame: 0,
     }
 }
 
